@@ -386,7 +386,7 @@ func init() {
 	register(&PropSpec{ID: "C08", Jobs: c08jobs,
 		Covers: []string{"C08.checked"},
 		Bounds: map[string]interface{}{
-			"quick":    "3 stages sharing one task (s0 overrides env K, variable K and dir; s1 env K; s2 nothing) in four dependency arrangements (parallel, two chains, mixed), followed by a second pipeline and a direct-run view of the same task; all values symbolic over a 3-element domain; thread mode with preemption bound 1",
+			"quick":    "4 stages sharing one task (s0 overrides env K, variable K and dir; s1 env K only; s2 nothing; s3 variable K only) in four dependency arrangements (parallel, two chains, mixed), followed by a second pipeline and a direct-run view of the same task; all values symbolic over a 3-element domain; thread mode with preemption bound 1",
 			"thorough": "preemption bound 2",
 		},
 		Outside:     []string{"more than 3 stages / 1 key per kind", "what the commands then see in their process environment (C09)", "the CLI echo path"},
@@ -418,7 +418,8 @@ func init() {
 		},
 		Outside:     []string{"byte-exactness of bytes.Buffer and of the interpreter's writes (bytes.Buffer is modelled as string concatenation)", "non-ASCII task names, outputs longer than 2 bytes per command (64 KiB)", "that dependent stages run after the producer (C01)", "the claim is at wiring level: which writer / variable receives which text"},
 		Assumptions: []string{"stub: Execute writes the symbolic bytes to job.Stdout and returns them as the command's output; in VerifC11Exec the REAL DefaultExecutor.Execute / NewDefaultExecutor run (shared buffer, offset, MultiWriter) and only the interpreter is a stub printing symbolic bytes to the configured stdout and stderr", "regexp [^a-zA-Z0-9_] ReplaceAllString and strings.ToUpper: engine intrinsics (per-byte, ASCII)", "io.MultiWriter: real SSA"},
-		Replay:      map[string]*ReplaySpec{"*": {PkgDir: "pkg/runner", File: "C11_replay_test.go", Test: "TestVerifReplayC11"}}})
+		Replay: map[string]*ReplaySpec{"*": {PkgDir: "pkg/runner", File: "C11_replay_test.go", Test: "TestVerifReplayC11"},
+			"VerifC11Exec": {PkgDir: "pkg/runner", File: "C11_replay_test.go", Test: "TestVerifReplayC11Exec"}}})
 
 	c13jobs := func(tier string) []*Job {
 		js := []*Job{
